@@ -4,6 +4,12 @@ from . import kani_run as K
 K.register_module("arithmetic", "src/compiler/value/arithmetic.rs", "compiler::value::arithmetic::kani_verif", "compiler")
 K.register_module("value_error", "src/compiler/value/error.rs", "compiler::value::error::kani_verif", "compiler")
 K.register_module("convert", "src/compiler/value/convert.rs", "compiler::value::convert::kani_verif", "compiler")
+STD = "stdlib-base"
+K.register_module("std_abs", "src/stdlib/abs.rs", "stdlib::abs::kani_verif", STD)
+K.register_module("std_mod", "src/stdlib/mod_func.rs", "stdlib::mod_func::kani_verif", STD)
+K.register_module("std_to_int", "src/stdlib/to_int.rs", "stdlib::to_int::kani_verif", STD)
+K.register_module("std_to_float", "src/stdlib/to_float.rs", "stdlib::to_float::kani_verif", STD)
+K.register_module("std_format_int", "src/stdlib/format_int.rs", "stdlib::format_int::kani_verif", STD)
 K.register_module("op", "src/compiler/expression/op.rs", "compiler::expression::op::kani_verif", "compiler")
 
 COMMON_TRUSTED = [
@@ -113,6 +119,25 @@ PROPS["C18"] = dict(
              "preconditions: key > isize::MIN and len + |key| < isize::MAX (their complement is the memory-exhaustion case C04 excludes)"],
     not_covered=["recursive crud::{insert,get,remove} over multi-segment paths and ObjectMap delegation to BTreeMap (std)", "pruning on removal", "quoted-field path segments (parser, C20)"],
     technique="contract-based deductive verification (Verus on mechanically extracted real bodies, loop invariants + decreases)",
+)
+
+PROPS["C29"] = dict(
+    level="proof",
+    text="numeric functions on the scalar domain: abs over all i64 (wraps only at MIN, no panic) and all non-NaN f64, mod = truncated remainder (sign/magnitude/zero), to_int/to_float scalar arms over the full i64/f64/bool domain",
+    kani=["k_abs_int", "k_abs_float", "c29_mod_int_bounded", "c29_mod_int_class", "k_to_int_scalar", "k_to_float_scalar"],
+    scans=["mod_delegates"],
+    trusted=["Conversion::convert (std string->number parsing) is stubbed out: the Bytes arms of to_int/to_float are not covered"],
+    not_covered=["round/ceil/floor with precision (10f64.powf(p): no precise pow in CBMC, no floats in Verus)", "to_string / parse_int / parse_float (std float formatting and parsing)",
+                 "float mod beyond 'never NaN' (C11)", "mod value identity is bounded to |a|,|b| < 2^15 (64-bit divider miter does not finish)"],
+)
+PROPS["C25"] = dict(
+    level="proof",
+    text="format_int/parse_int: the real format_radix body (Verus, every i64, every radix 2..=36): sign, digit validity, positional value == |x|, no overflow at i64::MIN, termination; round trip is a lemma over this contract and std's from_str_radix contract",
+    verus=["v_format_radix"],
+    kani=[],
+    trusted=["std::char::from_digit and i64::from_str_radix contracts (assumed, std)", "String = chars in order (the final collect)", "format_int's base check `(2..=36).contains(&base)` establishes the radix precondition (read, not verified)"],
+    not_covered=["flatten/unflatten, to_entries/from_entries, ip_* pairs (std Ipv4Addr/Ipv6Addr parsers)", "format_timestamp/parse_timestamp (chrono strftime/strptime)", "to_unix_timestamp/from_unix_timestamp (chrono arithmetic; Kani unit pending)"],
+    technique="contract-based deductive verification (Verus on the mechanically extracted real body, loop invariant + nonlinear lemmas)",
 )
 
 HOOK_COMMITS = ["8978857", "33091a8"]
